@@ -329,7 +329,6 @@ func c16InProcess(dir string, files map[string]string) (panicked string) {
 func c16ShapeUnit(group string, positions []c16Pos, skeleton any, tier string) *Unit {
 	name := "shape/" + group
 	return &Unit{Name: name, Weight: len(positions), Custom: func(u *Unit, dir string, deadline time.Time) *vlab.UnitResult {
-		res := &vlab.UnitResult{SigCounts: map[string]int{}, Extra: map[string]any{}}
 		shapes := c16Shapes(tier)
 		var snames []string
 		for k := range shapes {
@@ -348,6 +347,17 @@ func c16ShapeUnit(group string, positions []c16Pos, skeleton any, tier string) *
 				docs = append(docs, c16Doc{Pos: pos.String(), Shape: sn, Files: map[string]string{"Taskfile.yml": string(b), "inc.yml": inc, ".env": "X=1\n", "a.txt": "1"}})
 			}
 		}
+		res := c16RunBatch(name, docs, dir, deadline)
+		res.Extra["positions"] = len(positions)
+		res.Extra["shapes"] = len(snames)
+		return res
+	}}
+}
+
+// c16RunBatch runs the documents in crash-isolated child processes of the harness.
+func c16RunBatch(name string, docs []c16Doc, dir string, deadline time.Time) *vlab.UnitResult {
+	res := &vlab.UnitResult{SigCounts: map[string]int{}, Extra: map[string]any{}}
+	{
 		work := filepath.Dir(dir)
 		docsFile := filepath.Join(work, "docs.json")
 		jb, _ := json.Marshal(docs)
@@ -422,11 +432,67 @@ func c16ShapeUnit(group string, positions []c16Pos, skeleton any, tier string) *
 			from = last + 1
 		}
 		res.Extra["samples"] = []any{map[string]any{"position": docs[0].Pos, "shape": docs[0].Shape}, map[string]any{"position": docs[len(docs)-1].Pos, "shape": docs[len(docs)-1].Shape}}
-		res.Extra["positions"] = len(positions)
-		res.Extra["shapes"] = len(snames)
 		res.Stats = vlab.Stats{Scenario: name, Execs: n, States: n, Transitions: n, Outcomes: len(outcomes) + 1, Exhaustive: exhaustive}
 		return res
+	}
+}
+
+// included files: shape substitutions at the top level of the INCLUDED Taskfile, combined with
+// every subset of include options that touch its tasks (excludes, flatten, internal, aliases)
+func c16IncludeUnit(tier string) *Unit {
+	name := "included-file-shapes-x-include-options"
+	return &Unit{Name: name, Weight: 8, Custom: func(u *Unit, dir string, deadline time.Time) *vlab.UnitResult {
+		incVariants := map[string]string{
+			"valid-with-default": "version: '3'\ntasks:\n  default:\n    cmds: ['true']\n  it:\n    cmds: ['true']\n",
+			"valid-no-default":   "version: '3'\ntasks:\n  it:\n    cmds: ['true']\n",
+			"empty":              "",
+			"only-version":       "version: '3'\n",
+		}
+		for _, key := range []string{"tasks", "vars", "env", "includes", "dotenv", "output", "set", "shopt", "method", "run", "silent", "interval", "version"} {
+			for sn, sv := range map[string]string{"null": "", "tilde": " ~", "emptymap": " {}", "emptylist": " []", "str": " zz", "int": " 7"} {
+				base := "version: '3'\ntasks:\n  default:\n    cmds: ['true']\n"
+				if key == "tasks" || key == "version" {
+					base = "version: '3'\n"
+					if key == "version" {
+						base = "tasks:\n  default:\n    cmds: ['true']\n"
+					}
+				}
+				incVariants[key+"-"+sn] = base + key + ":" + sv + "\n"
+			}
+		}
+		opts := []string{"excludes: [default]", "excludes: [it, nope]", "flatten: true", "internal: true", "aliases: [i, j]", "optional: true", "vars: {V: 1}", "dir: ./sub"}
+		var docs []c16Doc
+		var vnames []string
+		for k := range incVariants {
+			vnames = append(vnames, k)
+		}
+		sort.Strings(vnames)
+		nsub := 1 << len(opts)
+		for _, vn := range vnames {
+			for mask := 0; mask < nsub; mask++ {
+				if tier != "thorough" && bitsSet(mask) > 2 {
+					continue
+				}
+				inc := "includes:\n  inc:\n    taskfile: ./inc.yml\n"
+				for i, o := range opts {
+					if mask&(1<<i) != 0 {
+						inc += "    " + o + "\n"
+					}
+				}
+				root := "version: '3'\n" + inc + "tasks:\n  t:\n    cmds: [{task: 'inc:it'}]\n  short: echo s\n"
+				docs = append(docs, c16Doc{Pos: "inc.yml=" + vn, Shape: fmt.Sprintf("include-options-mask-%d", mask), Files: map[string]string{"Taskfile.yml": root, "inc.yml": incVariants[vn], "sub/.keep": ""}})
+			}
+		}
+		return c16RunBatch(name, docs, dir, deadline)
 	}}
+}
+
+func bitsSet(m int) int {
+	n := 0
+	for ; m > 0; m >>= 1 {
+		n += m & 1
+	}
+	return n
 }
 
 func c16TextUnit(name string, docs func() []map[string]string, env []string) *Unit {
@@ -512,6 +578,7 @@ func c16Units(tier string) []*Unit {
 			return docs
 		}, nil))
 	}
+	us = append(us, c16IncludeUnit(tier))
 	// include locations
 	for _, remote := range []string{"0", "1"} {
 		remote := remote
